@@ -8,7 +8,10 @@ class C17(vlib.Spec):
     theorems = ["C17_topo_sort_ok", "C17_topo_sort_ok_perm", "C17_topo_sort_cycle", "C17_topo_sort_fuel",
                 "C17_topo_sort_adj_total", "C17_topo_sort_ok_iff_acyclic",
                 "C17_uf_find_terminates", "C17_uf_reachable_inv", "C17_uf_same_set_spec",
-                "C17_uf_find_correct", "C17_uf_union_keeps_first_root"]
+                "C17_uf_find_correct", "C17_uf_union_keeps_first_root",
+                "C17_sm_new_inv", "C17_sm_new_cycle", "C17_sm_new_total",
+                "C17_sm_try_merge_false_sound_partial", "C17_sm_try_merge_enemy_refused_partial",
+                "C17_sm_try_merge_same_group_partial"]
     crate, group, binary = "h_graphalg", "dfir", "h_graphalg"
     imports = "From Coq Require Import List NArith.\nFrom HV Require Import GraphAlg.Model GraphAlg.Check.\nImport ListNotations."
     level = "proof"
